@@ -48,6 +48,16 @@ CLAIMED = {
    technique="deterministic fault enumeration over simulated I/O step sequences (EIO, torn writes, truncation) with golden-answer oracle",
    note="Trusted base: the fault layer behind the H3/H4 seams, the relaxed comparison (sim/e2), Go toolchain. Workloads are sampled (320 quick / 6000 thorough), fault positions per workload are exhaustive up to the stated bounds. Sync faults only test error propagation (tmpfs).",
    ref="DESIGN.md section 4 C17"),
+ "C14": dict(level="exploration", engine="E3-structure-simulator",
+   text="Seeded histories of the real WritableBTreeV2 API in every non-background rebalancing mode, node size randomised per run so that capacity is reached in short histories, with write-out + load-back on the simulated disk as a restart anywhere in the history; a map model is checked after every step (count, order, content, search/has, refusal at capacity, header counts in the written bytes, stored hash == independent lookup3).",
+   technique="deterministic simulation of the structure API with write/load restarts vs map model",
+   note="Trusted base: the map model and own lookup3 (sim/specdec/checksum.go, checked against published vectors), Go toolchain. The incremental background mode is covered by C18's schedule simulator.",
+   ref="DESIGN.md section 4 C14"),
+ "C15": dict(level="exploration", engine="E3-structure-simulator",
+   text="Seeded histories of the real WritableFractalHeap API with block size and max-object knobs randomised per run, volume below/at/above one direct block, write-out + load-back restarts anywhere; a byte-store model is checked after every step (every live id returns its bytes, ids distinct, object count, refused insert changes nothing), also through the read-only FractalHeap reader after each restart.",
+   technique="deterministic simulation of the structure API with write/load restarts vs byte-store model",
+   note="Trusted base: the byte-store model, Go toolchain. Free space is recorded as a probe, not enforced.",
+   ref="DESIGN.md section 4 C15"),
  "C01": dict(level="exploration", engine="E1-history-simulator",
    text="Seeded deterministic simulation of write/restart/read histories (all dataset types x ranks x layouts x superblock versions x data classes) against an executable reference model; every failing run is minimised and replayed twice in fresh processes before it is reported.",
    technique="deterministic simulation: seeded write/restart/read histories vs reference model over a simulated disk",
@@ -98,6 +108,8 @@ def main():
         "engines": [
             {"name": "E1-history-simulator", "path": "/verif/sim/e1", "serves_properties": [p for p in CLAIMED if CLAIMED[p]["engine"].startswith("E1")],
              "kind_free_text": "seeded operation histories with restarts through the real public API over the simulated disk, compared with an executable reference model"},
+            {"name": "E3-structure-simulator", "path": "/verif/sim/e3", "serves_properties": [p for p in CLAIMED if CLAIMED[p]["engine"].startswith("E3")],
+             "kind_free_text": "the writable B-tree v2 and fractal heap (real code) driven through their exported API over the simulated disk, with write-out/load-back restarts and randomised tuning knobs, against map / byte-store models"},
             {"name": "E2-fault-simulator", "path": "/verif/sim/e2", "serves_properties": [p for p in CLAIMED if CLAIMED[p]["engine"].startswith("E2")],
              "kind_free_text": "the same workloads and the bundled reference files re-run under an explicit fault plan (failing/torn I/O calls at every step, truncation at every length, altered stored bytes) with a relaxed golden-answer oracle; crash-tolerant worker processes"},
         ],
